@@ -5,6 +5,8 @@
      (ctftr classes <target graph> <domains> <outcomes> <conditions>)
         -> (ok <OutcomesFound> <DstarOneWorld> <OutcomeNotCondition> <popsCoverCheck> <qGoodCheck>)
            the hypotheses of `ctfTR_no_internal_error_partial` that are decidable predicates on the input
+     (ctftr uncond <target graph> <domains> <event>)
+        -> (ok <in the class of ctfTRu_sound_free_partial: true|false> <answer of ctfTRu>)
      (ctftr line2 <target graph> <outcomes> <conditions>)
         -> (ok <derived event D* in ctf-factor form> (<vertices of D*>…)) | (err …)
 
@@ -28,6 +30,11 @@ def handleCtfTr (op : String) (args : List Sexp) : Option Sexp := do
       let O ← tr_eventOf? o
       let Cn ← tr_eventOf? c
       pure (tagged "ok" [tr_boolSexp (CtfTr.ctfTROrderSensitive G D O Cn), tr_answerSexp (CtfTr.ctfTR G D O Cn)])
+  | "uncond", [g, ds, ev] =>
+      let G ← parseGraph g
+      let D ← tr_domainsOf? ds
+      let E ← tr_eventOf? ev
+      pure (tagged "ok" [tr_boolSexp (CtfTr.ctfTRuInClass G D E), tr_answerSexp (CtfTr.ctfTRu G D E)])
   | "line2", [g, o, c] =>
       pure (ctftr_line2Sexp (CtfTr.line2C (← parseGraph g) (← tr_eventOf? o) (← tr_eventOf? c)))
   | "classes", [g, ds, o, c] =>
